@@ -467,9 +467,13 @@ def bounded(ctx, b):
                ["an extraordinarily well-documented state-of-the-art example"], ["aaaa bbbb cccc dddd eeee well-being"]]
     for i in range(n + len(crafted)):
         k = rng.choice([1, 2, 3])
-        caps, t = [], 0
+        # (every fourth set starts ten minutes or two hours into the programme, with a tall first caption: the line
+        # that carries it has more than 99 code words)
+        caps, t = [], (0 if i % 4 != 3 else rng.choice([620 * 10 ** 6, 7300 * 10 ** 6]))
         for j in range(k):
             lines = crafted[i] if i < len(crafted) and j == 0 else [make_text(rng) for _ in range(rng.choice([1, 2, 4]))]
+            if i % 4 == 3 and j == 0 and i >= len(crafted):
+                lines = [" ".join(ch * 14 for ch in "abcdefghijklmnop"[:rng.choice([10, 14, 16])])]
             rows = expected_rows(lines)
             words = sum(2 + (len(r) + 1) // 2 + 1 for r in rows) + 10          # generous word count of the cue
             gap = rng.choice(["tight", "sparse", "mid"])
@@ -490,7 +494,11 @@ def bounded(ctx, b):
             got = [" ".join(c_.get_text().split()) for c_ in back]
             # (the words a reference decoder shows: validated against the source lines just above)
             exp = [" ".join(" ".join(rows).split()) for rows in SHOWN_ROWS]
-            return got == exp, {"reread": got, "expected": exp}
+            if got != exp:
+                return False, {"reread": got, "expected": exp}
+            # ... and the own reader, too, shows each caption within three frames before its start time
+            early = [(s - c_.start) / FRAME for (s, _, _), c_ in zip(caps, back)]
+            return all(-0.001 <= e_ <= 3.001 for e_ in early), {"reread_starts_frames_before_the_start_time": [float(e_) for e_ in early]}
         b.guard(("write", i), one, sample={"captions": [(s, lines) for s, lines, _ in caps]})
 
 
